@@ -49,7 +49,7 @@ REQUIRED_PROBES = {
             "probe_hkdf_zero_length_expand", "probe_hkdf_empty_salt", "probe_hkdf_leftover_served"],
     "C15": ["probe_prng_autoreseed_mid_generate", "probe_prng_two_autoreseeds_one_call", "probe_prng_short_delivery_on_autoreseed", "probe_prng_carry_chain",
             "fault_delivery_short", "fault_delivery_zero"],
-    "C16": ["probe_prng_limit_lowered_below_emitted", "probe_prng_feed_at_budget_edge", "probe_prng_generate_to_edge", "probe_prng_autoreseed_mid_generate"],
+    "C16": ["probe_prng_limit_lowered_below_emitted", "probe_prng_feed_at_budget_edge", "probe_prng_generate_to_edge", "probe_prng_autoreseed_mid_generate", "probe_prng_long_feed_run"],
     "C17": ["probe_prng_init_failed_delivery", "probe_prng_reseed_failed_delivery", "probe_prng_null_callback_init", "probe_prng_system_source_init",
             "probe_prng_twin_flip_checked", "probe_prng_twin_equiv_checked", "fault_delivery_short", "fault_delivery_zero", "fault_os_permanent"],
     "C18": ["probe_trng_success_after_retries", "probe_trng_permanent_error", "fault_os_eintr", "fault_os_eagain", "fault_os_permanent",
@@ -311,11 +311,16 @@ def main():
         "violations": 1 if violation else 0,
     }
     if prop == "C18":
-        ev["coverage"]["baseline"] = {"scripts_per_variant": 441, "description": "all words over {EINTR,EAGAIN} of length 0..5 x 7 terminals", "exhaustive_in_every_variant": all(v["baseline_exhaustive"] for v in per_variant) if per_variant else False}
+        ev["coverage"]["baseline"] = {"scripts_per_variant": 525, "description": "all words over {EINTR,EAGAIN} of length 0..5 x 7 terminals (441) + homogeneous runs of 7..4096 EINTR or EAGAIN x {success, EIO} (84)", "exhaustive_in_every_variant": all(v["baseline_exhaustive"] for v in per_variant) if per_variant else False}
     if prop == "C16":
         ev["coverage"]["baseline"] = {"description": "all op sequences of length <= %d over a 10-letter alphabet, prod variant" % (5 if tier == "thorough" else 4), "exhaustive": bool(per_variant and per_variant[0]["baseline_exhaustive"])}
     if side is not None:
         ev["coverage"]["side_check_symbols"] = side
+    obs = [dict(variant=r.get("variant"), **r["unclaimed_observation"], search_truncated_at_run=r.get("search_truncated_at_run")) for r in results if r.get("unclaimed_observation")]
+    if obs:
+        for o in obs:
+            o.pop("plan", None)
+        ev["coverage"]["unclaimed_observations"] = obs
     if violation:
         ev["coverage"]["violation"] = violation
     if fault:
